@@ -744,8 +744,80 @@ def eval_narrow(case):
     return out, "ok", True
 
 
+def eval_reproject(case):
+    """projection, then more data entered (fill / fill_n / +=), then the SAME projection again: it must be the marginal
+    of the current contents (nothing cached), and the first result must not have changed."""
+    from physt import h2, h3
+
+    d = case["d"]
+    how = case["how"]
+    axes = case["axes"]
+    base = np.array([[0.5] * d, [1.5] * d, [0.5, 1.5, 0.5][:d]])
+    edges = [np.array([0.0, 1.0, 2.0]) for _ in range(d)]
+    cls = case.get("cls", "plain")
+    if cls == "plain":
+        parent = h2(base[:, 0], base[:, 1], edges) if d == 2 else h3(base, edges)
+    else:
+        from physt import special_histograms as sh
+
+        maker = {"polar": sh.polar, "cylindrical": sh.cylindrical, "spherical": sh.spherical}[cls]
+        pts = np.array([[1.0, 0.5, 0.25], [0.5, -1.0, 2.0], [-2.0, 1.0, -1.0]])[:, :d]
+        parent = maker(pts if d == 3 else pts[:, 0], *([] if d == 3 else [pts[:, 1]]))
+        c0 = [float((e[0] + e[-1]) / 2) for e in parent.numpy_bins]
+        base = np.array([c0])
+    out = []
+    sig = f"reproject|{cls}|{d}D|{how}|k={len(axes)}"
+
+    def marg(h):
+        f = np.asarray(h.frequencies)
+        e = np.asarray(h.errors2)
+        drop = tuple(a for a in range(d) if a not in axes)
+        return f.sum(axis=drop).tolist(), e.sum(axis=drop).tolist()
+
+    r1 = call(lambda: parent.projection(*axes))
+    if not r1.ok:
+        return [V("must_succeed", f"{sig}|first|{type(r1.exc).__name__}", case, "a projection", r1.describe())], "raise", True
+    first = (np.asarray(r1.value.frequencies).tolist(), np.asarray(r1.value.errors2).tolist())
+    if first != marg(parent):
+        out.append(V("marginal", f"{sig}|first", case, marg(parent), first))
+    more = np.array([[1.5] * d, [0.5] * d])
+    if cls != "plain":
+        # points given in the histogram's own coordinates (bin centres), entered as already transformed
+        more = np.array([[float((e[0, 0] + e[0, 1]) / 2) for e in parent.bins], [float((e[-1, 0] + e[-1, 1]) / 2) for e in parent.bins]])
+        if how == "fill":
+            for row in more:
+                parent.fill(row, 2, transformed=True)
+        elif how == "fill_n":
+            parent.fill_n(more, transformed=True)
+        elif how == "fill_cartesian":
+            parent.fill(np.array([0.3, 0.4, 0.5][:d]))
+        elif how == "fill_n_cartesian":
+            parent.fill_n(np.array([[0.3, 0.4, 0.5][:d], [-0.5, 0.2, 0.1][:d]]))
+    if cls != "plain" and how.startswith("fill"):
+        pass
+    elif how == "fill":
+        for row in more:
+            parent.fill(row, 2)
+    elif how == "fill_n":
+        parent.fill_n(more)
+    elif how == "iadd":
+        parent += parent.copy()
+    else:
+        parent *= 3
+    r2 = call(lambda: parent.projection(*axes))
+    if not r2.ok:
+        out.append(V("must_succeed", f"{sig}|second|{type(r2.exc).__name__}", case, "a projection", r2.describe()))
+        return out, "raise", True
+    second = (np.asarray(r2.value.frequencies).tolist(), np.asarray(r2.value.errors2).tolist())
+    if second != marg(parent):
+        out.append(V("marginal", f"{sig}|second_stale", case, marg(parent), second))
+    if (np.asarray(r1.value.frequencies).tolist(), np.asarray(r1.value.errors2).tolist()) != first:
+        out.append(V("projection_independent", f"{sig}|first_changed", case, first, np.asarray(r1.value.frequencies).tolist()))
+    return out, "ok", True
+
+
 EVAL = {"proj": eval_proj, "chain": eval_chain, "T": eval_T, "acc": eval_acc, "invalid": eval_invalid, "data": eval_data,
-        "narrow": eval_narrow}
+        "narrow": eval_narrow, "reproject": eval_reproject}
 
 
 def evaluate(case):
@@ -888,6 +960,7 @@ def units(tier, seed):
         us.append({"kind": "Tvia+acc", "shapes": part})
     us.append({"kind": "invalid"})
     us.append({"kind": "narrow"})
+    us.append({"kind": "reproject"})
     # (6) data-driven
     for wmode in (None, "int", "float"):
         us.append({"kind": "data", "cfg": "d2", "wmode": wmode, "L": 3, "part": 0, "nparts": 1})
@@ -898,7 +971,7 @@ def units(tier, seed):
         for part in range(3):
             us.append({"kind": "data", "cfg": "d4", "wmode": wmode, "L": 2, "part": part, "nparts": 3})
     # cheap and structurally different units first, the big 4D sweeps last (what a time cap would cut)
-    order = ["invalid", "narrow", "T2", "transformed", "proj2", "proj3", "chain", "datad2", "chain4", "datad3", "Tvia+acc", "proj4", "datad4"]
+    order = ["invalid", "narrow", "reproject", "T2", "transformed", "proj2", "proj3", "chain", "datad2", "chain4", "datad3", "Tvia+acc", "proj4", "datad4"]
 
     def prio(u):
         k = u["kind"]
@@ -943,6 +1016,22 @@ def run_unit(unit, ctx):
     kind = unit["kind"]
     thorough = ctx.thorough
     run = Runner(p, ctx, f"{kind} {unit.get('shapes', unit.get('parent', ''))!s:.60}")
+    if kind == "reproject":
+        import itertools as _it
+
+        for d in (2, 3):
+            for k in range(1, d):
+                for axes in _it.permutations(range(d), k):
+                    for cls in ("plain",) + (("polar",) if d == 2 else ("cylindrical", "spherical")):
+                        hows = ("fill", "fill_n", "iadd", "imul") + (() if cls == "plain" else ("fill_cartesian", "fill_n_cartesian"))
+                        for how in hows:
+                            case = {"kind": "reproject", "d": d, "axes": list(axes), "how": how, "cls": cls}
+                            vs, label, nt = evaluate(case)
+                            p.ev(True)
+                            p.outcome(f"reproject:{cls}:{label}")
+                            p.extend(vs)
+        p.sample(case)
+        return p
     if kind == "narrow":
         import itertools as _it
 
